@@ -530,11 +530,8 @@ fn convert_array8_to_type(src: &Array8, lg_config_k: u8, target_type: HllType) -
                 }
             }
 
-            let src_est = src.estimate();
-            let arr6_est = array6.estimate();
-            if src_est > arr6_est {
-                array6.set_hip_accum(src_est);
-            }
+            // same registers, same estimator state: HIP accumulator, KxQ sums, out-of-order flag
+            array6.set_estimator(src.estimator().clone());
 
             HllSketch::from_mode(lg_config_k, Mode::Array6(array6))
         }
@@ -548,11 +545,8 @@ fn convert_array8_to_type(src: &Array8, lg_config_k: u8, target_type: HllType) -
                 }
             }
 
-            let src_est = src.estimate();
-            let arr4_est = array4.estimate();
-            if src_est > arr4_est {
-                array4.set_hip_accum(src_est);
-            }
+            // same registers, same estimator state: HIP accumulator, KxQ sums, out-of-order flag
+            array4.set_estimator(src.estimator().clone());
 
             HllSketch::from_mode(lg_config_k, Mode::Array4(array4))
         }
